@@ -933,10 +933,28 @@ func mustFollow(fn *ssa.Function, a ssa.Instruction, B func(ssa.Instruction) boo
 // guardedBy: target unreachable from entry once the edges in cut are removed.
 func guardedBy(fn *ssa.Function, cut EdgeSet, target func(ssa.Instruction) bool) (bool, string) {
 	in, path := Query{Fn: fn, Cut: cut}.FromEntry(target)
-	if in != nil {
-		return false, blockPath(path)
+	if in == nil {
+		return true, ""
 	}
-	return true, ""
+	// a boolean flag that is set only after a cut edge was passed stands for that edge
+	// (found := false; …; if c { found = true }; …; if found { target })
+	if len(cut) > 0 {
+		ext := union(cut)
+		for i := 0; i < 3; i++ {
+			more := flagTrueEdges(fn, ext)
+			n := len(ext)
+			ext.addAll(more)
+			if len(ext) == n {
+				break
+			}
+		}
+		if len(ext) > len(cut) {
+			if in2, _ := (Query{Fn: fn, Cut: ext}).FromEntry(target); in2 == nil {
+				return true, ""
+			}
+		}
+	}
+	return false, blockPath(path)
 }
 
 // ---------------------------------------------------------------- bool implication
